@@ -333,6 +333,8 @@ let wire_suite () =
       let n = String.length line in
       if n > 2 && line.[0] = 'C' then begin
         match split_sp line with
+        | _ :: "K" :: "S" :: [pw] -> pending := Some (`Key (st_key (bytes_of_hex pw)))
+        | _ :: "K" :: "L" :: [u; r; p; a] -> pending := Some (`Key (lt_key (bytes_of_hex u) (bytes_of_hex r) (bytes_of_hex p) (nn a)))
         | [_; "F"; kind; _key; _buf] -> pending := Some (`Fault kind)
         | [_; key; buf] -> pending := Some (`Case (bytes_of_hex key, bytes_of_hex buf))
         | _ -> failwith ("bad record: " ^ line)
@@ -340,6 +342,11 @@ let wire_suite () =
         let i = !idx in incr idx;
         let body = String.sub line 2 (n - 2) in
         (match !pending with
+         | Some (`Key r) ->
+           let m = (match r with VOk k -> "OK " ^ hex_of_bytes k | VErr -> "ERR" | VPanic -> "PANIC" | VUnmodelled -> "UNMODELLED") in
+           emit (Printf.sprintf "M %d %s" i m);
+           (* C04: K is the OpaqueString password / MD5 or SHA-256 of user:realm:password *)
+           emit (Printf.sprintf "S %d %d C04key -" i (if m = "UNMODELLED" || m = body then 1 else 0))
          | Some (`Fault kind) ->
            emit (Printf.sprintf "M %d -" i);
            emit (Printf.sprintf "S %d %d %s -" i (if body = "-" then 1 else 0) (if kind = "FP" then "C10fault" else "C04fault"))
